@@ -9,7 +9,128 @@
    With a maxRepeat limit M copies are completed in document order until M have been completed in
    total; from then on every repeater still running or met later yields just one copy. *)
 From Emmet Require Import lib.Base model.MarkupTokenizer model.MarkupParser model.MarkupConvert
-     proofs.NumberingProofs.
+     proofs.NumberingProofs proofs.ConvertProofs.
+Local Open Scope Z_scope.
+
+(* Scope of the copy/budget theorems: token trees that are [clean_node] -- no `$#` placeholder token
+   (it reads the wrapped text, C04) and no implicit `*` without a number (repeat over wrapped text
+   lines); every abbreviation the statement of C02 speaks about is of this kind.  The spec:
+     unroll env reps node      -- the unrolled forest: a unit with `*n` gives copies i = 0..n-1 in
+                                  a row, copy i converted under the repeater stack (n, i) :: reps,
+                                  a unit without repeater is converted once under reps;
+     unroll_b env reps node b  -- the same with a budget b threaded in document order: a completed
+                                  copy costs 1; a repeater stops after the copy that brings the
+                                  budget to <= 0 (so it always yields at least one copy);
+     total node                -- copies completed when nothing stops them: n * (1 + inner). *)
+
+(* ---- C02_limit_full: closed form of the converter for EVERY budget, every nesting. *)
+Theorem C02_limit_full :
+  forall (env : cenv) (max_repeat : option N) (root : list tnode),
+    ce_text env = WNone -> forallb clean_node root = true ->
+    convert env max_repeat root = Ok (fst (list_b (unroll_b env []) root (budget_of max_repeat))).
+Proof. exact convert_limit_full. Qed.
+Print Assumptions C02_limit_full.
+
+(* the same for one statement in any converter state (any repeater stack, any budget, also <= 0):
+   output = spec, repeater stack and flags untouched, budget = spec's remaining budget *)
+Theorem C02_statement_spec :
+  forall (env : cenv) (node : tnode), clean_node node = true ->
+  forall st : cst,
+    conv_stmt env node st =
+    Ok (fst (unroll_b env (cs_repeaters st) node (cs_guard st)),
+        set_guard st (snd (unroll_b env (cs_repeaters st) node (cs_guard st)))).
+Proof. exact conv_stmt_spec. Qed.
+Print Assumptions C02_statement_spec.
+
+(* ---- convert_count: X*N (element or group, any nesting inside X, N >= 1; `*0` is read as N = 1)
+   with enough budget yields exactly N consecutive copies; copy i (0-based) is X without its
+   repeater converted under the stack (N, i) :: enclosing, tagged with its repetition; the budget
+   drops by the number of copies completed (guard_step in closed form). *)
+Theorem C02_convert_count :
+  forall (env : cenv) (node : tnode) (r0 : rep) (st : cst),
+    clean_node node = true -> node_rep node = Some r0 ->
+    total node <= cs_guard st ->
+    let n := written_count r0 in
+    conv_stmt env node st =
+    Ok (flat_map (fun i => tag_copy node (mkRep n i false)
+                             (unroll env (mkRep n i false :: cs_repeaters st) (strip_rep node)))
+                 (nseq (N.to_nat n) 0%N),
+        set_guard st (cs_guard st - total node)).
+Proof. exact convert_count. Qed.
+Print Assumptions C02_convert_count.
+
+(* nseq n 0 = 0, 1, ..., n-1: exactly n copies, in order *)
+Theorem C02_copies_indices :
+  forall (k : nat), (length (nseq k 0%N) = k)%nat /\
+  forall j, (j < k)%nat -> nth_error (nseq k 0%N) j = Some (N.of_nat j).
+Proof. intros k. split; [apply nseq_length|]. intros j Hj. rewrite nseq_nth by exact Hj. reflexivity. Qed.
+Print Assumptions C02_copies_indices.
+
+(* ---- counter of the nearest enclosing repeated unit: a unit without repeater is converted under
+   the stack of its surroundings ... *)
+Theorem C02_unrepeated_inherits :
+  forall (env : cenv) (node : tnode) (st : cst),
+    clean_node node = true -> node_rep node = None -> total node <= cs_guard st ->
+    conv_stmt env node st =
+    Ok (once_u env node None (cs_repeaters st), set_guard st (cs_guard st - total node)).
+Proof. exact convert_unrepeated. Qed.
+Print Assumptions C02_unrepeated_inherits.
+
+(* ... and under a stack whose head is (n, i) a `$` run prints start+i / start+n-(i+1), zero-padded;
+   with an empty stack it prints 1 *)
+Theorem C02_numbering_in_copy :
+  forall (env : cenv) (reps : list rep) (t : token) (size : N) (reverse : bool) (base n i : N),
+    tk t = TRepeaterNumber size reverse base 0 ->
+    tok_str env (mkRep n i false :: reps) t =
+    pad (N.to_nat size) (str_of_Z (counter_value reverse base (i + 1) n)).
+Proof. exact numbering_in_copy. Qed.
+Print Assumptions C02_numbering_in_copy.
+
+Theorem C02_numbering_outside :
+  forall (env : cenv) (t : token) (size : N) (reverse : bool) (base : N),
+    tk t = TRepeaterNumber size reverse base 0 ->
+    tok_str env [] t = pad (N.to_nat size) [49%N].
+Proof. exact numbering_outside. Qed.
+Print Assumptions C02_numbering_outside.
+
+(* ---- guard_enough: budget >= total copies => same as unlimited *)
+Theorem C02_guard_enough :
+  forall (env : cenv) (max_repeat : option N) (root : list tnode),
+    ce_text env = WNone -> forallb clean_node root = true ->
+    total_list root <= budget_of max_repeat ->
+    convert env max_repeat root = Ok (flat_map (unroll env []) root).
+Proof. exact convert_enough. Qed.
+Print Assumptions C02_guard_enough.
+
+(* ---- guard_step: converting a statement never raises the budget, lowers it by at most the
+   unlimited number of copies (exactly that many when the budget suffices: C02_convert_count),
+   and leaves the repeater stack as it found it *)
+Theorem C02_guard_step :
+  forall (env : cenv) (node : tnode) (st : cst) (items : list anode) (st' : cst),
+    clean_node node = true -> conv_stmt env node st = Ok (items, st') ->
+    cs_guard st - total node <= cs_guard st' <= cs_guard st /\ cs_repeaters st' = cs_repeaters st.
+Proof. exact guard_bounds. Qed.
+Print Assumptions C02_guard_step.
+
+(* each completed copy costs exactly one: the budgeted copy loop, one round *)
+Theorem C02_guard_step_round :
+  forall (f : N -> Z -> list anode * Z) (k : nat) (i : N) (b : Z),
+    copies_b f (S k) i b =
+    let '(x, b1) := f i b in
+    if b1 - 1 <=? 0 then (x, b1 - 1)
+    else let '(y, b3) := copies_b f k (i + 1)%N (b1 - 1) in (x ++ y, b3).
+Proof. reflexivity. Qed.
+Print Assumptions C02_guard_step_round.
+
+(* ---- guard_exhausted: budget <= 0 => every repeater (still running or met later) yields just one
+   copy, the one with index 0 of its written count *)
+Theorem C02_guard_exhausted :
+  forall (env : cenv) (node : tnode) (st : cst),
+    clean_node node = true -> cs_guard st <= 0 ->
+    conv_stmt env node st =
+    Ok (unroll_one env (cs_repeaters st) node, set_guard st (cs_guard st - repeaters node)).
+Proof. exact guard_exhausted. Qed.
+Print Assumptions C02_guard_exhausted.
 
 (* ---- numbering: value.  A `$` run of width [size] with modifier (reverse, base) prints the
    counter in force -- copy i of n of the innermost active repeater: base+i-1, or base+n-i when
@@ -23,6 +144,8 @@ Theorem C02_numbering_value :
 Proof. exact numbering_value. Qed.
 Print Assumptions C02_numbering_value.
 
+Local Close Scope Z_scope.
+
 (* ---- numbering: padding.  The printed string has length max(width, digits) and is the number
    itself preceded by zeros only. *)
 Theorem C02_pad_width :
@@ -32,7 +155,7 @@ Print Assumptions C02_pad_width.
 
 Theorem C02_pad_zeros :
   forall (w : nat) (s : str),
-    exists z, pad w s = z ++ s /\ Forall (fun c => c = c_0) z /\ length z = w - length s.
+    exists z, pad w s = z ++ s /\ Forall (fun c => c = c_0) z /\ length z = (w - length s)%nat.
 Proof. exact pad_suffix. Qed.
 Print Assumptions C02_pad_zeros.
 
@@ -47,10 +170,10 @@ Print Assumptions C02_decimal.
    size = n, the written direction, base = int(M) (1 when no digits are written). *)
 Theorem C02_tokenize_numbering :
   forall (n : nat) (at_sign reverse : bool) (digits : str),
-    0 < n -> all_digits digits -> (at_sign = false -> reverse = false /\ digits = []) ->
+    (0 < n)%nat -> all_digits digits -> (at_sign = false -> reverse = false /\ digits = []) ->
     tokenize (dollars n ++ modifier at_sign reverse digits) =
     TOk [mkTok (TRepeaterNumber (N.of_nat n) reverse (form_base digits) 0)
-               0 (n + length (modifier at_sign reverse digits))].
+               0 (n + length (modifier at_sign reverse digits))%nat].
 Proof. exact tokenize_numbering_form. Qed.
 Print Assumptions C02_tokenize_numbering.
 
@@ -58,9 +181,9 @@ Print Assumptions C02_tokenize_numbering.
    cannot continue it; the base written as the decimal numeral of M is M *)
 Theorem C02_tokenize_numbering_base :
   forall (n : nat) (reverse : bool) (m : N) (rest : str),
-    0 < n -> all_digits (str_of_N m) -> peek_p is_number rest = false ->
+    (0 < n)%nat -> all_digits (str_of_N m) -> peek_p is_number rest = false ->
     repeater_number (dollars n ++ modifier true reverse (str_of_N m) ++ rest) =
-    CTok (TRepeaterNumber (N.of_nat n) reverse m 0) (n + length (modifier true reverse (str_of_N m))).
+    CTok (TRepeaterNumber (N.of_nat n) reverse m 0) (n + length (modifier true reverse (str_of_N m)))%nat.
 Proof. exact repeater_number_base. Qed.
 Print Assumptions C02_tokenize_numbering_base.
 
@@ -71,3 +194,24 @@ Example C02_nonvacuous :
   tokenize [36;64;45;49;50]%N = TOk [mkTok (TRepeaterNumber 1 true 12 0) 0 5] /\
   tokenize [36;64;51]%N = TOk [mkTok (TRepeaterNumber 1 false 3 0) 0 3].
 Proof. exact tokenize_numbering_examples. Qed.
+
+(* non-vacuity of the copy/budget theorems: `(p.c$+q)*2>` ... a real abbreviation goes through the
+   tokenizer and the parser to a clean tree; with budget 3 < total = 5 the limit cuts inside *)
+From Coq Require Import String.
+From Emmet Require Import lib.StrLit.
+Definition env0 : cenv := mkCenv WNone [] false.
+Definition names_of (l : list anode) : list (option str) := map an_name l.
+Example C02_nonvacuous_copies :
+  exists toks root,
+    tokenize (S "(p$+q)*2+u$@-*3") = TOk toks /\ parse false toks = POk root /\
+    forallb clean_node root = true /\ total_list root = 5%Z /\
+    option_map names_of (match convert env0 None root with Ok l => Some l | _ => None end)
+      = Some [Some (S "p1"); Some (S "q"); Some (S "p2"); Some (S "q"); Some (S "u3"); Some (S "u2"); Some (S "u1")] /\
+    option_map names_of (match convert env0 (Some 3%N) root with Ok l => Some l | _ => None end)
+      = Some [Some (S "p1"); Some (S "q"); Some (S "p2"); Some (S "q"); Some (S "u3")] /\
+    option_map names_of (match convert env0 (Some 1%N) root with Ok l => Some l | _ => None end)
+      = Some [Some (S "p1"); Some (S "q"); Some (S "u3")].
+Proof.
+  eexists. eexists. split; [vm_compute; reflexivity|]. split; [vm_compute; reflexivity|].
+  repeat split; vm_compute; reflexivity.
+Qed.
